@@ -93,6 +93,7 @@ def gen(rng):
     wm["extra"]["proj/notes.txt"] = {"t": "f", "mode": 0o644, "data": b"info!(\"bystander\");\n"}
     wm["extra"]["proj/src/data.rsx"] = {"t": "f", "mode": 0o600, "data": b"warn!(\"other ext\");\n"}
     knobs = {"threads": rng.randrange(1, 5), "config_arg": rng.choice(["rel", "abs"])}
+    knobs = scen.env_knobs(rng, knobs)
     plan = {"seed": rng.getrandbits(48) | 1, "perm": True, "faults": benign_plan(rng)}
     return wm, knobs, plan, tags
 
